@@ -120,6 +120,9 @@ def run(ctx):
     Pt = smul(dp, G)
     Px, Py = T("proj", (Pt, 0)), T("proj", (Pt, 1))
     d = tm.ite(odd(Py), tm.add([N, tm.mul([-1, dp])]), dp)
+    from . import c03 as _c03
+    _c03.check_operand_ranges(ctx, "C12.4", "bits.bips.bip340.sign", pre=[tm.cmp("ge", dp, 1), tm.cmp("lt", dp, N)], what="every key in [1, n-1]")
+    _c03.check_operand_ranges(ctx, "C12.4", "bits.bips.bip340.verify", what="every 32-byte key and 64-byte signature")
     for given in (True, False):
         ev.assumptions = {tm.cmp("is", aux, None): not given}
         s = ev.run(fs)
